@@ -394,6 +394,9 @@ func (t *Tokenizer) tokenizeBuffer(buf []byte, last bool) {
 			if b == '-' {
 				t.num.NegExp = true
 			}
+			if 0 < len(t.num.BigBuf) {
+				t.num.BigBuf = append(t.num.BigBuf, b)
+			}
 			continue
 		case expDigit:
 			t.num.AddExp(b)
